@@ -14,7 +14,7 @@ def clauses_for(cfg):
 
 def run(tier, seed):
     return opscheck.run_property(
-        "C11", tier, seed, clauses_for=clauses_for, n_quick=24, n_thorough=240,
+        "C11", tier, seed, design=opscheck.design_ops("C11", None), clauses_for=clauses_for, n_quick=24, n_thorough=240,
         gen_kw=[{"positive": True}, {"positive": False}, {"positive": False, "zeros": True},
                 {"positive": False, "nmax": 5, "nmax3": 3}],
         generator=opsdrive.gen_means_config,
